@@ -3,15 +3,15 @@ import io
 from pyvc.contract import bounded
 
 
-@bounded('charset-never-leaks', ('C17',), 'charsets latin1/utf-8/cp1252/shift_jis/utf-16 x 3 texts x truncation of the saved file at EVERY byte offset, a corrupted data byte at every offset, and save() failing in the n-th message (non-integer time, unencodable text)')
+@bounded('charset-never-leaks', ('C17',), 'charsets latin1/utf-8/cp1252/shift_jis/utf-16/utf-16-le/utf-7/iso2022_jp x 5 texts x truncation of the saved file at EVERY byte offset, a corrupted data byte at every offset, and save() failing in the n-th message (non-integer time, unencodable text)')
 def charset_never_leaks(tier, seed, only=None):
     import mido
     import mido.midifiles.meta as MM
     fails = []
     n = 0
     seen = set()
-    texts = ['abc', 'été', '日本']
-    for cs in ('latin1', 'utf-8', 'cp1252', 'shift_jis', 'utf-16'):
+    texts = ['abc', 'été', '日本', 'a+b', 'take 1']
+    for cs in ('latin1', 'utf-8', 'cp1252', 'shift_jis', 'utf-16', 'utf-16-le', 'utf-7', 'iso2022_jp'):
         for text in texts:
             try:
                 text.encode(cs)
@@ -28,12 +28,18 @@ def charset_never_leaks(tier, seed, only=None):
             if MM._charset != 'latin1':
                 fails.append(dict(clause='charset leaked after a successful save', inputs=dict(charset=cs, text=text), detail=MM._charset))
                 MM._charset = 'latin1'
-            back = mido.MidiFile(file=io.BytesIO(data), charset=cs)
-            ok = back.tracks[0][0].name == text and back.tracks[0][2].text == text and \
-                bytes(text.encode(cs)) in data
+            try:
+                back = mido.MidiFile(file=io.BytesIO(data), charset=cs)
+                ok = back.tracks[0][0].name == text and back.tracks[0][2].text == text and \
+                    bytes(text.encode(cs)) in data
+                detail = repr(back.tracks)
+            except Exception as ex:      # noqa  (a file just saved must load again)
+                ok, detail = False, 'loading the file just saved raised %r' % ex
             if not ok or MM._charset != 'latin1':
-                fails.append(dict(clause='text does not survive save/load in its charset', inputs=dict(charset=cs, text=text), detail=repr(back.tracks)))
+                fails.append(dict(clause='text does not survive save/load in its charset', inputs=dict(charset=cs, text=text), detail=detail[:300]))
                 MM._charset = 'latin1'
+            if not ok:
+                continue
             variants = [(('truncate', k), data[:k]) for k in range(len(data))]
             variants += [(('corrupt', k), data[:k] + bytes([0xFF if data[k] != 0xFF else 0xF5]) + data[k + 1:]) for k in range(14, len(data))]
             for tag, d in variants:
